@@ -379,8 +379,29 @@ func renderReal(n *c9Node) (out string, panicked any) {
 	buf := &bytes.Buffer{}
 	tracker := namer.NewDefaultImportTracker()
 	w := gengo.NewSnippetWriter(buf, namer.NameSystems{"raw": namer.NewRawNamer("example.com/target", tracker)})
+	sn := n.snippet()
+	if n.Kind == "snippets" {
+		// the root is rendered exactly once, so its sequence may be one that can only be walked once (fed from a channel, a
+		// work list drained while rendering): whoever looks at it before rendering must not consume it
+		parts := make([]snippet.Snippet, len(n.List))
+		for i, a := range n.List {
+			parts[i] = a.snippet()
+		}
+		used := false
+		sn = snippet.Snippets(func(yield func(snippet.Snippet) bool) {
+			if used {
+				return
+			}
+			used = true
+			for _, p := range parts {
+				if !yield(p) {
+					return
+				}
+			}
+		})
+	}
 	panicked = ev.Panics(func() {
-		w.Render(n.snippet())
+		w.Render(sn)
 	})
 	return buf.String(), panicked
 }
